@@ -46,6 +46,8 @@ type sessCase struct {
 	Ops     []sessOp `json:"ops"`
 	// C20 only: a listener-level case (the whole server with TCP / WebSocket listeners), see c20srv.go
 	Listener *lisCase `json:"listener,omitempty"`
+	// C20 only: Stop is called while a durable session's connection end is in progress, see c20srv.go
+	Closing bool `json:"closing,omitempty"`
 }
 
 type sessStep struct {
@@ -58,6 +60,7 @@ type sessStep struct {
 type sessObs struct {
 	Steps []sessStep `json:"steps"`
 	Lis   *lisObs    `json:"lis,omitempty"`
+	Clo   *cloObs    `json:"clo,omitempty"`
 	Err   string     `json:"err,omitempty"`
 }
 
@@ -309,6 +312,10 @@ func (p *sessProp) Run(ci interface{}) interface{} {
 	if c.Listener != nil {
 		lo, msg := runListener(c.Listener)
 		return &sessObs{Lis: lo, Err: msg}
+	}
+	if c.Closing {
+		co, msg := runStopDuringClose()
+		return &sessObs{Clo: co, Err: msg}
 	}
 	r := &sessRun{c: c, obs: &sessObs{}, cur: map[int]*Auto{}, curCid: map[int]int{}, all: map[int]*Auto{}, seenPubs: map[int]int{}, seenClose: map[int]bool{}, ended: map[int]time.Time{}}
 	if err := r.startBroker(); err != nil {
@@ -665,7 +672,10 @@ func (p *sessProp) Coq(ci interface{}, oi interface{}) string {
 		for i, b := range o.Lis.Closed {
 			cl[i] = cBool(b)
 		}
-		lis = fmt.Sprintf("(Some (mkLis %s %s %s %s %s))", cList(ks), cBool(o.Lis.Returned), cList(cl), cBool(o.Lis.AcceptsAfter), cBool(o.Lis.LateConnack))
+		lis = fmt.Sprintf("(Some (SLis (mkLis %s %s %s %s %s)))", cList(ks), cBool(o.Lis.Returned), cList(cl), cBool(o.Lis.AcceptsAfter), cBool(o.Lis.LateConnack))
+	}
+	if c.Closing && o.Clo != nil {
+		lis = fmt.Sprintf("(Some (SClosing (mkClosing %s %s %d%%N)))", cBool(o.Clo.Early), cBool(o.Clo.Returned), o.Clo.UnAck)
 	}
 	return fmt.Sprintf("(mkCase %s %s %s %s)", cBool(c.Preempt), cList(steps), cBool(o.Err == ""), lis)
 }
@@ -674,6 +684,9 @@ func (p *sessProp) Class(ci interface{}, oi interface{}) (string, bool) {
 	c := ci.(*sessCase)
 	if c.Listener != nil {
 		return "listener", true
+	}
+	if c.Closing {
+		return "stop-during-connection-end", true
 	}
 	timed, recon, wills := false, 0, false
 	for _, op := range c.Ops {
